@@ -17,7 +17,7 @@ RULE = (
     "(the model applies the documented rule: a non-string value whose len equals the number of samples is "
     "distributed, anything else replicated; N=1 included), list-of-dicts batches, duplicate writes, writer re-open, "
     "new readers; sample indices ascending and drawn around file boundaries ceil(j*C*n/d)+-1 with several samples "
-    "per file. After the history 12-20 queries: read(a,b) with columns None / str / list, forward fill, "
+    "per file, starting in 1980-2100 or just before the file stamp gains a digit (10, 100, 1000, 10^9 s). After the history 12-20 queries: read(a,b) with columns None / str / list, forward fill, "
     "read_latest, get_bounds, get_fields, read_flatdict index; endpoints on samples +-1, file boundaries +-1, "
     "between two samples of one file, outside the bounds. Oracle: dict model index -> normalised value. "
     "Non-trivial: a query endpoint on a file boundary, or a forward-fill query whose answer file holds a later "
@@ -140,6 +140,11 @@ def next_index(draw, p, last, used_files):
     n, d, C = p["n"], p["d"], p["C"]
     mode = draw(st.integers(0, 9))
     if last is None:
+        if draw(st.integers(0, 5)) == 0:
+            # file stamps that change their number of digits (9 -> 10 s, 99 -> 100 s, 999999999 -> 1000000000 s)
+            t = draw(st.sampled_from([10, 100, 1000, 10 ** 9])) - draw(st.integers(1, 3)) * C
+            j = max(0, t // C)
+            return max(0, M.boundary_index(j, n, d, C) + draw(st.sampled_from([0, 0, 1])))
         j = draw(st.integers(M.T1980 // C + 1, M.T2100 // C - 100))
         base = M.boundary_index(j, n, d, C)
         return max(0, base + draw(st.sampled_from([-1, 0, 0, 1, 5])))
